@@ -251,7 +251,9 @@ def check_exports(ctx, ns, targets, model_bounds, bad):
 def run(ctx):
     drv, sess, tally = E.common_setup(ctx, "C05")
     ctx.rule = ("per type: every exported constant of every target vs the PyDSDL model and the Lean `bounds`; serbuf of the zero value, a "
-                "maximal-length value and random values into buffers of every size 0..max+1 (sampled sizes when max > 48 bytes); non-trivial = "
+                "maximal-length value and random values into buffers of every size 0..max+1 (sampled sizes when max > 48 bytes); up to K "
+                "variable-length arrays per type in turn over capacity (+1, roundup8(capacity), +1) into buffers of exactly the advertised "
+                "size and +1 on every C / C++ option set incl. --enable-override-variable-array-capacity; non-trivial = "
                 "type has at least one field; distinct by (type, target, item) / (type, value, capacity)")
     ns = sess.ns
 
@@ -285,7 +287,7 @@ def run(ctx):
     nvals = 3 if ctx.quick else 8
     for gt in ns.types:
         mx = (model_bounds[gt.index][1] + 7) // 8
-        vals = [G.zero_value(gt.expr), E.maximal_value(rng, gt.expr), E.maximal_value(rng, gt.expr)] + [G.gen_value(rng, gt.expr) for _ in range(nvals)]
+        vals = [G.zero_value(gt.expr), E.maximal_value(rng, gt.expr), E.maximal_value(rng, gt.expr)] + [G.gen_value(rng, gt.expr, nan_payloads=True) for _ in range(nvals)]
         if mx <= 48:
             caps = list(range(0, mx + 2))
         else:
@@ -293,6 +295,12 @@ def run(ctx):
         for vi, v in enumerate(vals):
             for cap in (caps if vi < 3 or mx <= 16 else rng.sample(caps, min(len(caps), 8))):
                 reqs.append(E.Req(gt, "serbuf", (v, cap)))
+        # the advertised buffer size is only sufficient because a value cannot exceed the DSDL capacities: one array at a
+        # time over its capacity (by one, up to the next multiple of 8 = the size of bit-packed storage, one beyond) into a
+        # buffer of EXACTLY the advertised size and one byte more, guard bytes around: must be refused, nothing written outside
+        for v in E.overlong_values(rng, gt, 4 if ctx.quick else 10):
+            reqs.append(E.Req(gt, "serbuf", (v, mx), origin="overlong"))
+            reqs.append(E.Req(gt, "serbuf", (v, mx + 1), origin="overlong"))
     native = [t for t in sess.targets if t.lang != "py"]
     E.run_requests(ctx, sess, drv, "serbuf", reqs, tally, targets=native)
     # Python owns its buffer (Serializer.new(_EXTENT_BYTES_)): the advertised size must suffice for ANY value, in
